@@ -199,19 +199,23 @@ def budgets_of(rng):
     return out
 
 
-def long_chain(rng):
-    """A definition that needs more than 4096 passes of each propagation (one pass = one fact): a merged value behind 1100
-    assignments. A cap on the NUMBER of passes with an optimistic finalisation shows on it at the fixpoint budget."""
-    c = rng.randrange(1, 4)
-    return ("template T(n) { signal input a; signal output b; var x = 0; " + " ".join("x = x + %d;" % (i % 7) for i in range(1100))
-            + " var y; if (a == %d) { y = 1; } else { y = 2; } var z = 3; if (n > %d) { z = 4; } b <-- y * x + z; }" % (c, c))
+def long_chain(rng, n=958):
+    """A definition that needs more than 4096 passes of each propagation (one pass = one fact; four passes per assignment
+    of the chain): n assignments (958 for the degree side, 1004 for the value side, whose merges take fewer passes), then 30
+    values merged under a condition on a signal, so that pass 4096 falls among the merges (some have their arguments known, their phi not yet). A cap on the NUMBER of passes with an optimistic
+    finalisation shows on it at the fixpoint budget, with no budget hook involved."""
+    m = 30
+    sigs = " ".join("signal s%d;" % j for j in range(m))
+    merges = " ".join("var y%d; if (a == %d) { y%d = 1; } else { y%d = 2; } s%d <-- y%d;" % (j, j % 5, j, j, j, j) for j in range(m))
+    return ("template T(n) { signal input a; signal output b; %s var x = 0; " % sigs + " ".join("x = x + %d;" % (i % 7) for i in range(n + rng.randrange(3)))
+            + " " + merges + " b <-- x; }")
 
 
 def run(ctx, proofs):
     budgets = budgets_of(ctx.rng)
     r = propeng.run(ctx, proofs, budgets, check_vals=True, check_degs=True,
                     n_quick=260, n_thorough=5000, props=("C06", "C07", "C20"), check_advice=True,
-                    extra_progs=[("BN254", long_chain(ctx.rng), "long-chain")])
+                    extra_progs=[("BN254", long_chain(ctx.rng, 958), "long-chain"), ("BN254", long_chain(ctx.rng, 1004), "long-chain")])
     propeng.verdict(ctx, proofs, r, kinds=("value", "degree", "finding", "advice", None),
                     known_classes=("cs0013-sum-of-products",),
                     extra_cov={"budgets": budgets,
